@@ -6,7 +6,6 @@ import (
 	"encoding/binary"
 	"fmt"
 	"net"
-	"os"
 	"path/filepath"
 	"time"
 
@@ -204,6 +203,10 @@ func (w *world) serverCfg() *security.SecurityConfig {
 	} else {
 		cfg.TokenPoolSigningKeyFile = "/pool/missing"
 	}
+	if w.EnvPaths {
+		// the locations are left to the environment (see setEnv)
+		cfg.TokenSigningKeyDir, cfg.TokenPoolSigningKeyFile = "", ""
+	}
 	for k, v := range w.Named {
 		mc["/keys/"+k] = v
 	}
@@ -259,12 +262,7 @@ func runServer(w *world, pre []frame, post func(sent []frame) []frame) srvObs {
 	neg := &security.SecurityNegotiation{IsClient: false, ServerConfig: cfg}
 	auth := security.NewAuthenticator(cfg, stream.NewStream(sc))
 	done := make(chan error, 1)
-	if w.Env != "" {
-		os.Setenv("SEC_TOKEN_MAX_AGE", w.Env)
-		defer os.Unsetenv("SEC_TOKEN_MAX_AGE")
-	} else {
-		os.Unsetenv("SEC_TOKEN_MAX_AGE")
-	}
+	defer w.setEnv()()
 	o.T0 = time.Now().Unix()
 	go func() {
 		defer func() {
@@ -306,7 +304,7 @@ type cliObs struct {
 }
 
 // runClient drives the real client role with a directly configured token.
-func runClient(token string, mk func(m1 []frame) []frame) cliObs {
+func runClient(token string, method security.AuthMethod, mk func(m1 []frame) []frame) cliObs {
 	var o cliObs
 	sc, cc := net.Pipe()
 	dl := time.Now().Add(runTimeout)
@@ -326,7 +324,7 @@ func runClient(token string, mk func(m1 []frame) []frame) cliObs {
 				done <- fmt.Errorf("panic")
 			}
 		}()
-		err := security.VerifC11TokenAuth(ctx, auth, security.AuthToken, neg)
+		err := security.VerifC11TokenAuth(ctx, auth, method, neg)
 		_ = cc.Close()
 		done <- err
 	}()
